@@ -323,15 +323,15 @@ def campaign_kill(work, tier, rnd, it, dist):
         jobs.append(("selfkill", 300, 1, True, 60, 0.0))
         jobs.append(("selfkill", 10 ** 8, 0, False, 8, 0.0))         # never fires: the control
         for _ in range(3):
-            jobs.append(("victim", 0, 1, True, 1500, rnd.uniform(0.0, 0.04)))
+            jobs.append(("victim", 0, 1, True, 300, rnd.uniform(0.0, 0.03)))
     else:
         for k in range(1, 140):
             jobs.append(("selfkill", k, 0, False, 8, 0.0))
         for k in range(1, 1200, 7):
             jobs.append(("selfkill", k, 1, True, 60, 0.0))
         jobs.append(("selfkill", 10 ** 8, 0, False, 8, 0.0))
-        for i in range(120):
-            jobs.append(("victim", 0, 1 if i % 2 else 0, True, 1500, rnd.uniform(0.0, 0.05)))
+        for i in range(80):
+            jobs.append(("victim", 0, 1 if i % 2 else 0, True, 300, rnd.uniform(0.0, 0.03)))
     cases = []
     with ThreadPoolExecutor(max_workers=8) as ex:
         futs = [ex.submit(one_kill, work, it, dist, i, *j) for i, j in enumerate(jobs)]
@@ -540,6 +540,9 @@ def run(ctx):
         for combo in itertools.product(LITERAL_ALPHABET, repeat=n):
             histories.append(("exhaustive", list(combo) + [["table"]]))
     n_exh = len(histories)
+    if quick:   # a sample of the next length
+        for _ in range(300):
+            histories.append(("exhaustive-sampled-len4", [rnd.choice(LITERAL_ALPHABET) for _ in range(4)] + [["table"]]))
     # 2. every mutator sequence x the query sweep
     sweep = query_sweep()
     seqs = [list(c) for n in range(0, 3) for c in itertools.product(MUTATORS, repeat=n)]
@@ -551,7 +554,7 @@ def run(ctx):
             ops += [o, ["table"]]
         histories.append(("sweep", ops + sweep))
     # 3. random histories
-    for _ in range(150 if quick else 3000):
+    for _ in range(250 if quick else 3000):
         histories.append(("random", random_history(rnd)))
     # 4. unserialisable traces at every position
     for ops in campaign_positions(ctx.tier):
